@@ -358,6 +358,107 @@ def _nested_ok(stmt: ast.stmt, call: ast.Call, helper: ast.FunctionDef) -> bool:
     return True
 
 
+def _expression_helper(fn: ast.AST, is_method: bool) -> Optional[ast.AST]:
+    """The returned expression of a private helper whose body is (docstring +) `return <expr>`, else None."""
+    if not isinstance(fn, ast.FunctionDef) or fn.decorator_list:
+        return None
+    a = fn.args
+    if a.vararg or a.kwarg or a.posonlyargs or (is_method and not a.args):
+        return None
+    body = _strip_doc(fn.body)
+    if len(body) != 1 or not isinstance(body[0], ast.Return) or body[0].value is None:
+        return None
+    params = {x.arg for x in a.args + a.kwonlyargs}
+    for n in ast.walk(body[0].value):
+        if isinstance(n, (ast.Yield, ast.YieldFrom, ast.Await, ast.NamedExpr)):
+            return None
+        if isinstance(n, ast.Lambda) and {x.arg for x in n.args.args + n.args.kwonlyargs} & params:
+            return None
+        if isinstance(n, ast.Name) and isinstance(n.ctx, ast.Store) and n.id in params:      # comprehension variable shadows a parameter
+            return None
+        if isinstance(n, ast.Name) and n.id in ('super', 'locals', 'vars', 'eval', 'exec'):
+            return None
+        if isinstance(n, ast.Name) and n.id == fn.name:
+            return None
+    return body[0].value
+
+
+def inline_expression_helpers(repo) -> List[str]:
+    """A private one-expression helper (`def _h(a, b): return <expr>`) is replaced by that expression at every call in its own module
+    (`_h(x, y)`) or class (`self._h(x, y)`) whose arguments are names, attribute chains or constants; when no reference is left the
+    definition is dropped.  Exact for such arguments (nothing with a side effect is duplicated, dropped or reordered)."""
+    done: List[str] = []
+    defs = _definition_counts(repo)
+    for mi in repo.modules.values():
+        cands: List[Tuple[str, ast.FunctionDef, bool, object]] = []
+        for hname, h in mi.functions.items():
+            if _is_private(hname) and defs.get(hname, 0) == 1:
+                e = _expression_helper(h.node, False)
+                if e is not None:
+                    cands.append((hname, h.node, False, None))
+        for ci in mi.classes.values():
+            for hname, h in ci.methods.items():
+                if _is_private(hname) and defs.get(hname, 0) == 1:
+                    e = _expression_helper(h.node, True)
+                    if e is not None:
+                        cands.append((hname, h.node, True, ci))
+        if not cands:
+            continue
+        touched = False
+        for hname, hnode, is_method, ci in cands:
+            expr = _expression_helper(hnode, is_method)
+            count = [0]
+
+            class T(ast.NodeTransformer):
+                def visit_FunctionDef(self, n):
+                    if n is hnode:
+                        return n
+                    return self.generic_visit(n)
+
+                def visit_Call(self, c):
+                    self.generic_visit(c)
+                    f = c.func
+                    hit = (is_method and isinstance(f, ast.Attribute) and f.attr == hname and isinstance(f.value, ast.Name) and f.value.id == 'self') or \
+                          (not is_method and isinstance(f, ast.Name) and f.id == hname)
+                    if not hit:
+                        return c
+                    params = _bind(hnode, c, is_method)
+                    if params is None:
+                        return c
+                    if is_method:
+                        params = dict(params)
+                        params[hnode.args.args[0].arg] = ast.Name(id='self', ctx=ast.Load())
+                    new = _Subst(params, {}).visit(clone(expr))
+                    for x in ast.walk(new):
+                        for attr in ('lineno', 'col_offset', 'end_lineno', 'end_col_offset'):
+                            if hasattr(c, attr):
+                                setattr(x, attr, getattr(c, attr))
+                    count[0] += 1
+                    return new
+            scope = ci.node if is_method else mi.tree
+            T().visit(scope)
+            if count[0]:
+                touched = True
+                left = sum(1 for m2 in repo.modules.values() for n in ast.walk(m2.tree)
+                           if (isinstance(n, ast.Attribute) and n.attr == hname) or (isinstance(n, ast.Name) and n.id == hname)
+                           or (isinstance(n, ast.alias) and n.name.split('.')[-1] == hname)
+                           or (isinstance(n, ast.Constant) and n.value == hname))
+                if left == 0:
+                    if is_method:
+                        del ci.methods[hname]
+                        if hnode in ci.node.body:
+                            ci.node.body.remove(hnode)
+                    else:
+                        del mi.functions[hname]
+                        if hnode in mi.tree.body:
+                            mi.tree.body.remove(hnode)
+                done.append(f'{(ci.name + ".") if ci else mi.base + ":"}{hname} (x{count[0]}{", definition kept" if left else ""})')
+        if touched:
+            ast.fix_missing_locations(mi.tree)
+            set_parents(mi.tree)
+    return done
+
+
 class _ModuleBody:
     """The top-level code of a module as a caller."""
     def __init__(self, mi):
